@@ -191,7 +191,8 @@ func normPanics(f core.RunFunc) core.RunFunc {
 		o := f(h)
 		for i, v := range o.Violations {
 			if strings.HasPrefix(v.Fingerprint, prop+"/panic/") {
-				fp := hexRun.ReplaceAllString(v.Fingerprint, "#")
+				pre := prop + "/panic/"
+				fp := pre + hexRun.ReplaceAllString(v.Fingerprint[len(pre):], "#")
 				if len(h) > 0 && scenarios[h[0]] != nil {
 					fp += "/" + trieKind(scenarios[h[0]])
 				}
@@ -320,13 +321,28 @@ func main() {
 			History []string    `json:"history"`
 			Merkle  *merkleCase `json:"merkle"`
 			Other   string      `json:"merkle_other"`
+			Bulk    string      `json:"bulk"`
+			User    string      `json:"merkle_user"`
 		}
 		if err := core.LoadReplay(core.Opt.Replay, &rp); err != nil {
 			fmt.Fprintln(os.Stderr, err)
 			os.Exit(2)
 		}
 		failed := false
-		if rp.Merkle != nil {
+		if rp.Bulk != "" || rp.User != "" {
+			// the fixed large histories / the MerkleRootSha users are re-run as a whole
+			os.RemoveAll(dbDir)
+			r := core.NewResult(prop, "model_checking")
+			if rp.Bulk != "" {
+				partA2(r)
+			} else {
+				partBTypes(r)
+			}
+			for _, v := range r.Violations {
+				fmt.Printf("VIOLATION-REPLAYED %s\n%s\n", v.Fingerprint, v.What)
+				failed = true
+			}
+		} else if rp.Merkle != nil {
 			fmt.Printf("replay merkle case %+v\n", *rp.Merkle)
 			r := core.NewResult(prop, "model_checking")
 			if rp.Other != "" {
@@ -381,7 +397,8 @@ func main() {
 		"events update/delete/get/hash/trie-commit/durable-commit/reopen(same db)/reopen(fresh db)/reopen(previous durable root); " +
 		"states are distinct raw dumps (in-memory node graph with cached hashes, dirty flags and distance to unloading; TrieDatabase memory layer with reference counts and pending preimages; " +
 		"set of keys in the key-value store; reopenable roots with their content); a distinct outcome is a distinct root hash (= distinct content) or a structural transition mark. " +
-		"Part B: every leaf list in the stated families, every position, every single-byte alteration of leaf, sibling and root."
+		"Part A2: four fixed large histories (1500/6000 keys, 100-byte values; plain and secure; cache limit 0 and 120) that reach TrieDatabase.Commit's intermediate batch flush. " +
+		"Part B: every leaf list in the stated families (n distinct leaves for every n up to the bound; all lists over a 3- and 4-leaf alphabet up to the bound; all ordered selections of up to k of k leaves), every position, every single-byte alteration (two masks) of leaf, each sibling and root, dropped and side-swapped path entries; a distinct outcome there is a distinct (list length, path length)."
 	r.Assume = []string{
 		"keccak256 is collision free on the enumerated inputs",
 		"cache-generation distance of a node is abstracted to 'unloadable / k commits from unloadable (k<=16) / far', exact for every explored history (depth < 16)",
@@ -391,7 +408,12 @@ func main() {
 	statsDir := core.ScratchDir("c17stats")
 	defer os.RemoveAll(statsDir)
 	os.Setenv("C17_STATS", statsDir)
-	core.BFS(r, core.BFSConfig{Prop: prop, Run: safe, MaxDepth: maxDepth() + 1, Subprocess: true,
+	bfs := core.BFS
+	if os.Getenv("C17_SKIP_BFS") != "" {
+		// development aid: only parts A2 and B; the result is marked as not exhaustive
+		bfs = func(r *core.Result, cfg core.BFSConfig) { r.NotExhaustive("Part A skipped (C17_SKIP_BFS set)") }
+	}
+	bfs(r, core.BFSConfig{Prop: prop, Run: safe, MaxDepth: maxDepth() + 1, Subprocess: true,
 		DiedFingerprint: func(hist []string, tail string) *core.Violation {
 			lines := strings.Split(strings.TrimSpace(tail), "\n")
 			first := ""
@@ -463,6 +485,9 @@ func main() {
 			forged["different_answer"], forged["different_answer"]+forged["rejected"]+forged["same_answer"]+forged["panic"], forged["panic"])
 	}
 
+	t2 := time.Now()
+	partA2(r)
+	r.Extra["part_a2_wall_s"] = time.Since(t2).Seconds()
 	partB(r)
 	core.Finish(r)
 }
